@@ -94,6 +94,8 @@ def _init_path(ex):
     ex.keep = []
     ex.havocked = set()
     ex.used_callees = set()
+    ex.alloc_count = 0
+    ex.call_model = getattr(ex.contract, "calls", None)
     if not hasattr(ex, "all_callees"):
         ex.all_callees = set()
 
